@@ -1,260 +1,106 @@
-import MimeModel.Props.C03
-import MimeModel.Gen.Tree
+import MimeModel.Lemmas.C19Base
+import MimeModel.Lemmas.ZipLayout
 /-
   C19 — zip-based formats are identified from their leading entry names.
 
-  Proved here, for every byte string: every `zipContains` verdict comes from a name
-  position, i.e. the marker is found either at offset 30 of the file (the first entry's
-  name) or exactly 30 bytes after an occurrence of the local-header signature PK\x03\x04;
-  the first-entry forward clauses (JAR, OpenDocument, EPUB); the tree facts (zip children,
-  priority order, parent).  The multi-hop forward clause (markers in entries 2..6 of a
-  writer-produced archive) is *not* proved: it is covered by the correspondence and the
-  archive/zip-based oracle only — see `partial` in the evidence.
+  Only the property theorems live here; the lemmas are in Lemmas/C19Base.lean (the walk of
+  zip.go: every verdict comes from a name position; first-entry clauses; hop chains) and
+  Lemmas/ZipLayout.lean (the hop chain derived from the archive layout Spec/Zip.lean).
 -/
 namespace Mime.C19
-open Mime Mime.Tree
+open Mime Mime.Tree Mime.Spec.Zip
 
-theorem indexOf_spec (sep : Bytes) : ∀ (b : Bytes) (k : Nat), indexOf sep b = some k →
-    hasPrefix (b.drop k) sep = true := by
-  intro b
-  induction b with
-  | nil =>
-    intro k h
-    simp only [indexOf] at h
-    split at h
-    · rename_i he
-      have : sep = [] := by simpa using he
-      subst this; cases h; simp [hasPrefix]
-    · cases h
-  | cons a as ih =>
-    intro k h
-    simp only [indexOf] at h
-    split at h
-    · rename_i hp; cases h; simpa [hasPrefix] using hp
-    · cases hi : indexOf sep as with
-      | none => simp [hi] at h
-      | some j =>
-        simp only [hi, Option.some.injEq] at h
-        subst h
-        simpa using ih j hi
-
-/-- "the marker sits at a name position": at offset 30 of the file, or 30 bytes after a
-    local-header signature -/
-def AtNamePos (raw sig : Bytes) : Prop :=
-  ∃ k, hasPrefix (raw.drop k) sig = true ∧ (k = 30 ∨ (30 ≤ k ∧ hasPrefix (raw.drop (k - 30)) pk34 = true))
-
-theorem drop_congr (raw : Bytes) (a b : Nat) (h : a = b) : raw.drop a = raw.drop b := by rw [h]
-
-theorem zipLoop_sound (sig : Bytes) : ∀ (n : Nat) (raw : Bytes) (off : Nat), zipLoop sig n (raw.drop off) = true →
-    AtNamePos raw sig := by
-  intro n
-  induction n with
-  | zero => intro raw off h; simp [zipLoop] at h
-  | succ n ih =>
-    intro raw off h
-    simp only [zipLoop] at h
-    by_cases h0 : (raw.drop off).length < 0x1A
-    · simp only [h0, ↓reduceIte] at h; cases h
-    · simp only [h0, ↓reduceIte] at h
-      cases hidx : indexOf pk34 ((raw.drop off).drop 0x1A) with
-      | none => simp only [hidx] at h; cases h
-      | some nh =>
-        simp only [hidx] at h
-        by_cases h1 : ((raw.drop off).drop 0x1A).length < nh + 0x1E
-        · simp only [h1, ↓reduceIte] at h; cases h
-        · simp only [h1, ↓reduceIte] at h
-          have hpk := indexOf_spec pk34 _ nh hidx
-          simp only [List.drop_drop] at hpk h
-          by_cases hp : hasPrefix (raw.drop (off + 0x1A + (nh + 0x1E))) sig = true
-          · refine ⟨off + 0x1A + (nh + 0x1E), hp, Or.inr ⟨by omega, ?_⟩⟩
-            rw [drop_congr raw (off + 0x1A + (nh + 0x1E) - 30) (off + 0x1A + nh) (by omega)]
-            exact hpk
-          · simp only [hp, Bool.false_eq_true, ↓reduceIte] at h
-            exact ih raw (off + 0x1A + (nh + 0x1E)) h
-
-/-- **C19 (converse)**: a positive `zipContains` verdict (hence an OOXML, JAR or APK
-    verdict) implies that the marker occurs at a name position of the archive -/
+/-- **C19 (converse)**: a positive `zipContains` verdict (hence an OOXML, JAR or APK verdict)
+    implies that the marker occurs at a name position of the archive: at offset 30 of the
+    file, or exactly 30 bytes after a local-header signature `PK\x03\x04` -/
 theorem verdict_implies_marker (raw sig : Bytes) (mso : Bool) (h : zipContains raw sig mso = some true) :
-    AtNamePos raw sig := by
-  simp only [zipContains] at h
-  by_cases h0 : raw.length < 0x1E
-  · simp only [h0, ↓reduceIte] at h; cases h
-  · simp only [h0, ↓reduceIte] at h
-    by_cases h1 : hasPrefix (raw.drop 0x1E) sig = true
-    · exact ⟨30, h1, Or.inl rfl⟩
-    · simp only [h1, Bool.false_eq_true, ↓reduceIte] at h
-      by_cases h2 : (mso && !(msoSkipFiles.any fun sf => hasPrefix (raw.drop 0x1E) sf)) = true
-      · simp only [h2, ↓reduceIte] at h; cases h
-      · simp only [h2, Bool.false_eq_true, ↓reduceIte] at h
-        cases hc : getU32le raw 18 with
-        | none => simp only [hc] at h; cases h
-        | some cs =>
-          simp only [hc] at h
-          generalize (cs + 49) % 4294967296 = so at h
-          by_cases h3 : (raw.drop 0x1E).length < so
-          · simp only [h3, ↓reduceIte] at h; cases h
-          · simp only [h3, ↓reduceIte] at h
-            by_cases h4 : raw.length < so
-            · simp only [h4, ↓reduceIte] at h; cases h
-            · simp only [h4, ↓reduceIte] at h
-              cases hi : indexOf pk34 (raw.drop so) with
-              | none => simp only [hi] at h; cases h
-              | some nh =>
-                simp only [hi] at h
-                have hpk := indexOf_spec pk34 _ nh hi
-                simp only [List.drop_drop] at hpk h
-                by_cases h5 : (raw.drop (0x1E + so)).length < nh
-                · simp only [h5, ↓reduceIte] at h; cases h
-                · simp only [h5, ↓reduceIte] at h
-                  by_cases hp : hasPrefix (raw.drop (0x1E + so + nh)) sig = true
-                  · refine ⟨0x1E + so + nh, hp, Or.inr ⟨by omega, ?_⟩⟩
-                    rw [drop_congr raw (0x1E + so + nh - 30) (so + nh) (by omega)]
-                    exact hpk
-                  · simp only [hp, Bool.false_eq_true, ↓reduceIte, Option.some.injEq] at h
-                    exact zipLoop_sound sig 4 raw (0x1E + so + nh) h
+    C19Base.AtNamePos raw sig := C19Base.verdict_implies_marker raw sig mso h
 
-/-- **C19 (forward, first entry)**: an archive whose first entry name starts with the
-    marker (at offset 30, as every zip writer places it) is accepted -/
+/-- **C19 (forward, first entry)** -/
 theorem first_entry_marker (raw sig : Bytes) (mso : Bool) (hl : 30 ≤ raw.length)
-    (h : hasPrefix (raw.drop 30) sig = true) : zipContains raw sig mso = some true := by
-  unfold zipContains
-  have : ¬ raw.length < 0x1E := by omega
-  simp only [this, ↓reduceIte, h]
+    (h : hasPrefix (raw.drop 30) sig = true) : zipContains raw sig mso = some true :=
+  C19Base.first_entry_marker raw sig mso hl h
 
-def kManifest : Bytes := [77, 69, 84, 65, 45, 73, 78, 70, 47, 77, 65, 78, 73, 70, 69, 83, 84, 46, 77, 70]
+/-- JAR: first entry `META-INF/MANIFEST.MF` ⇒ the regenerated `Jar` check accepts -/
+theorem jar_forward (raw : Bytes) (hl : 30 ≤ raw.length) (h : hasPrefix (raw.drop 30) C19Base.kManifest = true) :
+    Cust.evalExpr Gen.d_Jar raw = some true := C19Base.jar_forward raw hl h
 
-/-- regenerated fact: `Jar` is `zipContains(raw, "META-INF/MANIFEST.MF", false)` -/
-theorem jar_is_manifest_check : Gen.d_Jar = .expr (.prim (.zipContains kManifest false)) := by decide
-
-/-- JAR: first entry `META-INF/MANIFEST.MF` ⇒ the `Jar` check accepts -/
-theorem jar_forward (raw : Bytes) (hl : 30 ≤ raw.length) (h : hasPrefix (raw.drop 30) kManifest = true) :
-    Cust.evalExpr Gen.d_Jar raw = some true := by
-  rw [jar_is_manifest_check]
-  simp only [Cust.evalExpr, BExp.eval, Prim.eval]
-  exact first_entry_marker raw kManifest false hl h
-
-def mimeZip : Bytes := [97, 112, 112, 108, 105, 99, 97, 116, 105, 111, 110, 47, 122, 105, 112]
-
-/-- regenerated facts about tree.go: the zip children, in priority order (apk before jar),
-    and every node whose check calls `zipContains` or tests offset 30 for `mimetype…` is a
-    child (or grandchild through its ODF parent) of the `application/zip` node -/
+/-- regenerated facts about tree.go: the zip children in priority order (apk before jar), the
+    parent's type, and no node outside the zip subtree uses the zip walk -/
 theorem tree_facts :
     (Gen.builtin.children.filter (fun c => c.info.name == "zip")).map (fun c => c.children.map (·.info.name)) =
       [["xlsx", "docx", "pptx", "epub", "apk", "jar", "odt", "ods", "odp", "odg", "odf", "odc", "sxc"]] ∧
-    (Gen.builtin.children.filter (fun c => c.info.name == "zip")).map (·.info.mime) = [mimeZip] ∧
-    -- no node outside the zip subtree uses the zip walk
+    (Gen.builtin.children.filter (fun c => c.info.name == "zip")).map (·.info.mime) = [C19Base.mimeZip] ∧
     (Gen.builtin.children.filter (fun c => !(c.info.name == "zip"))).all (fun c =>
       (Tree.flatten c).all (fun i => match i.det with
         | .expr (.prim (.zipContains _ _)) => false
         | .expr (.or (.prim (.zipContains _ _)) _) => false
-        | _ => true)) = true := by
-  refine ⟨by decide, by decide, by decide⟩
+        | _ => true)) = true := C19Base.tree_facts
 
-/-- every verdict of a zip child has `application/zip` as its parent: the walk can only
-    reach a child of `zip` through `zip` (C03), and results mirror the walked path -/
+/-- every verdict of a zip child has `application/zip` as its parent -/
 theorem zip_child_parent (acc : Info → Bool) (a : Info) (cs : List (Tree Info)) (i : Info)
-    (h : i ∈ (walk acc (.node a cs)).tail) : acc i = true :=
-  C03.ancestors_accept acc (.node a cs) i h
+    (h : i ∈ (walk acc (.node a cs)).tail) : acc i = true := C19Base.zip_child_parent acc a cs i h
 
-/- non-vacuity: a stored first entry named META-INF/MANIFEST.MF -/
-example : zipContains ([0x50, 0x4B, 3, 4] ++ List.replicate 26 0 ++ kManifest) kManifest false = some true := by decide
-
-/-! ### forward clause for markers in entries 2..6 -/
-
-/-- one hop of the loop of `zipContains`: the cursor is at the name of an entry (position `p`,
-    30 bytes after its header); the next local-header signature after the 26 bytes the loop
-    skips is at `q`, and that header is complete -/
-def Hop (raw : Bytes) (p q : Nat) : Prop :=
-  p + 0x1A ≤ raw.length ∧ p + 0x1A ≤ q ∧ indexOf pk34 (raw.drop (p + 0x1A)) = some (q - (p + 0x1A)) ∧ q + 0x1E ≤ raw.length
-
-/-- a chain of hops from name position `p` through the names of the following entries, none of
-    which starts with the marker, ending at a name that does -/
-inductive Chain (raw sig : Bytes) : Nat → Nat → Prop
-  | last (p q : Nat) : Hop raw p q → hasPrefix (raw.drop (q + 0x1E)) sig = true → Chain raw sig p 1
-  | step (p q n : Nat) : Hop raw p q → hasPrefix (raw.drop (q + 0x1E)) sig = false →
-      Chain raw sig (q + 0x1E) n → Chain raw sig p (n + 1)
-
-/-- **the loop follows the chain**: with at least as many iterations as hops, it finds the marker -/
-theorem zipLoop_chain (raw sig : Bytes) : ∀ (n fuel p : Nat), Chain raw sig p n → n ≤ fuel →
-    zipLoop sig fuel (raw.drop p) = true := by
-  intro n
-  induction n with
-  | zero => intro fuel p h; cases h
-  | succ n ih =>
-    intro fuel p h hf
-    obtain ⟨fuel', rfl⟩ : ∃ f', fuel = f' + 1 := ⟨fuel - 1, by omega⟩
-    have hop_step : ∀ q, Hop raw p q →
-        zipLoop sig (fuel' + 1) (raw.drop p) =
-          (if hasPrefix (raw.drop (q + 0x1E)) sig then true else zipLoop sig fuel' (raw.drop (q + 0x1E))) := by
-      intro q ⟨h1, h2, h3, h4⟩
-      rw [zipLoop]
-      have l1 : ¬ ((raw.drop p).length < 0x1A) := by simp only [List.length_drop]; omega
-      simp only [l1, ↓reduceIte, List.drop_drop, h3]
-      have l2 : ¬ ((raw.drop (p + 0x1A)).length < q - (p + 0x1A) + 0x1E) := by simp only [List.length_drop]; omega
-      simp only [l2, ↓reduceIte]
-      have e : p + 0x1A + (q - (p + 0x1A) + 0x1E) = q + 0x1E := by omega
-      rw [e]
-    cases h with
-    | last _ q hq hp =>
-      rw [hop_step q hq, hp]; rfl
-    | step _ q m hq hp hrest =>
-      rw [hop_step q hq, hp]
-      simp only [Bool.false_eq_true, ↓reduceIte]
-      exact ih fuel' (q + 0x1E) hrest (by omega)
-
-/-- **C19 (forward, entries 2..6)**: the first entry's name is not the marker (and, for the
-    OOXML checks, is one of the names a package may start with); the second local header is the
-    first signature at or after offset `compressedSize + 49`; from its name the marker is reached
-    at once or through at most four further hops: then `zipContains` answers true -/
+/-- **C19 (forward, entries 2..6, offsets as hypotheses)** -/
 theorem zipContains_forward (raw sig : Bytes) (mso : Bool) (nh : Nat)
     (hlen : 0x1E ≤ raw.length)
     (hmso : mso = true → msoSkipFiles.any (fun sf => hasPrefix (raw.drop 0x1E) sf) = true)
     (hso : 0x1E + (u32le raw 18 + 49) % 4294967296 + nh ≤ raw.length)
     (hidx : indexOf pk34 (raw.drop ((u32le raw 18 + 49) % 4294967296)) = some nh)
     (hfin : hasPrefix (raw.drop (0x1E + (u32le raw 18 + 49) % 4294967296 + nh)) sig = true ∨
-      ∃ n, n ≤ 4 ∧ Chain raw sig (0x1E + (u32le raw 18 + 49) % 4294967296 + nh) n) :
-    zipContains raw sig mso = some true := by
-  unfold zipContains
-  have l0 : ¬ (raw.length < 0x1E) := by omega
-  simp only [l0, ↓reduceIte]
-  by_cases hp0 : hasPrefix (raw.drop 0x1E) sig = true
-  · simp [hp0]
-  · simp only [hp0, Bool.false_eq_true, ↓reduceIte]
-    have hm : (mso && !(msoSkipFiles.any fun sf => hasPrefix (raw.drop 0x1E) sf)) = false := by
-      cases mso with
-      | false => rfl
-      | true => simp [hmso rfl]
-    simp only [hm, Bool.false_eq_true, ↓reduceIte]
-    rw [getU32le_isSome (by omega)]
-    simp only
-    generalize (u32le raw 18 + 49) % 4294967296 = so at hso hidx hfin
-    have l1 : ¬ ((raw.drop 0x1E).length < so) := by simp only [List.length_drop]; omega
-    have l2 : ¬ (raw.length < so) := by omega
-    simp only [l1, l2, ↓reduceIte, hidx, List.drop_drop]
-    have l3 : ¬ ((raw.drop (0x1E + so)).length < nh) := by simp only [List.length_drop]; omega
-    simp only [l3, ↓reduceIte]
-    rcases hfin with h | ⟨n, hn, hc⟩
-    · simp [h]
-    · by_cases h : hasPrefix (raw.drop (0x1E + so + nh)) sig = true
-      · simp [h]
-      · simp only [h, Bool.false_eq_true, ↓reduceIte, Option.some.injEq]
-        exact zipLoop_chain raw sig n 4 _ hc hn
+      ∃ n, n ≤ 4 ∧ C19Base.Chain raw sig (0x1E + (u32le raw 18 + 49) % 4294967296 + nh) n) :
+    zipContains raw sig mso = some true :=
+  C19Base.zipContains_forward raw sig mso nh hlen hmso hso hidx hfin
 
-/- non-vacuity: a three-entry package ([Content_Types].xml, _rels/.rels, word/document.xml) -/
-def exContentTypes : Bytes := [91, 67, 111, 110, 116, 101, 110, 116, 95, 84, 121, 112, 101, 115, 93, 46, 120, 109, 108]
-def exRels : Bytes := [95, 114, 101, 108, 115, 47, 46, 114, 101, 108, 115]
-def exWordDoc : Bytes := [119, 111, 114, 100, 47, 100, 111, 99, 117, 109, 101, 110, 116, 46, 120, 109, 108]
-def exWord : Bytes := [119, 111, 114, 100, 47]
-def exArchive : Bytes :=
-  pk34 ++ List.replicate 14 0 ++ [5, 0, 0, 0] ++ List.replicate 8 0 ++ exContentTypes ++ List.replicate 5 120 ++
-  pk34 ++ List.replicate 26 0 ++ exRels ++ List.replicate 20 120 ++
-  pk34 ++ List.replicate 26 0 ++ exWordDoc ++ List.replicate 10 120
+/-- **C19 (forward, from the layout)**: an archive is the concatenation of its local entries
+    (`PK\x03\x04`, 26 fixed header bytes, name, extra field, stored data, optional data descriptor)
+    followed by the central directory.  If the entries in front of the marker entry contain no
+    embedded `PK\x03\x04` (`Clean`), entries 2..j-1 have at least 26 bytes after their header
+    (`Realistic`, the property's "entries of realistic length"), the marker entry is among
+    entries 2..6, and the first hop lands inside entry 1 (`hfirst`), then `zipContains` answers
+    true.  Every hypothesis is a statement about the list of entries; the offsets, the
+    `indexOf` results and the hop chain of `zipContains_forward` are derived. -/
+theorem layout_forward (e1 : Entry) (mid : List Entry) (em : Entry) (rest : List Entry)
+    (tail sig : Bytes) (mso : Bool)
+    (hwf : ∀ e ∈ e1 :: mid ++ [em], e.WF)
+    (hclean : ∀ e ∈ e1 :: mid, e.Clean)
+    (hreal : ∀ e ∈ mid, e.Realistic)
+    (hmid : mid.length ≤ 4)
+    (hfirst : e1.csizeField + 49 ≤ 30 + e1.name.length + e1.extra.length + e1.data.length + e1.desc.length)
+    (hsmall : (archive (e1 :: mid ++ em :: rest) tail).length < 4294967296)
+    (hmso : mso = true → msoSkipFiles.any (fun sf => hasPrefix e1.name sf) = true)
+    (hmark : hasPrefix em.name sig = true) :
+    zipContains (archive (e1 :: mid ++ em :: rest) tail) sig mso = some true :=
+  Mime.ZipLayout.layout_forward e1 mid em rest tail sig mso hwf hclean hreal hmid hfirst hsmall hmso hmark
 
-example : zipContains exArchive exWord true = some true := by decide +kernel
+/-- OOXML packages: first entry `[Content_Types].xml` (19 bytes) whose size field is the stored
+    size ⇒ the first hop lands exactly on the second header; any `mso` -/
+theorem ooxml_layout (e1 : Entry) (mid : List Entry) (em : Entry) (rest : List Entry)
+    (tail sig : Bytes) (mso : Bool)
+    (hwf : ∀ e ∈ e1 :: mid ++ [em], e.WF) (hclean : ∀ e ∈ e1 :: mid, e.Clean)
+    (hreal : ∀ e ∈ mid, e.Realistic) (hmid : mid.length ≤ 4)
+    (hname : e1.name = ofString "[Content_Types].xml") (hcsize : e1.csizeField = e1.data.length)
+    (hsmall : (archive (e1 :: mid ++ em :: rest) tail).length < 4294967296)
+    (hmark : hasPrefix em.name sig = true) :
+    zipContains (archive (e1 :: mid ++ em :: rest) tail) sig mso = some true :=
+  Mime.ZipLayout.ooxml_second_entry e1 mid em rest tail sig mso hwf hclean hreal hmid hname hcsize hsmall hmark
 
-example : Hop exArchive 84 115 ∧ hasPrefix (exArchive.drop 145) exWord = true ∧
-    indexOf pk34 (exArchive.drop ((u32le exArchive 18 + 49) % 4294967296)) = some 0 := by
-  unfold Hop
-  decide +kernel
+/-- streamed archives: size field 0 (sizes in a data descriptor) and at least 19 bytes of
+    name + extra + data + descriptor in entry 1 -/
+theorem descriptor_layout (e1 : Entry) (mid : List Entry) (em : Entry) (rest : List Entry)
+    (tail sig : Bytes) (mso : Bool)
+    (hwf : ∀ e ∈ e1 :: mid ++ [em], e.WF) (hclean : ∀ e ∈ e1 :: mid, e.Clean)
+    (hreal : ∀ e ∈ mid, e.Realistic) (hmid : mid.length ≤ 4)
+    (hcsize : e1.csizeField = 0)
+    (hlen : 19 ≤ e1.name.length + e1.extra.length + e1.data.length + e1.desc.length)
+    (hmso : mso = true → msoSkipFiles.any (fun sf => hasPrefix e1.name sf) = true)
+    (hmark : hasPrefix em.name sig = true) :
+    zipContains (archive (e1 :: mid ++ em :: rest) tail) sig mso = some true :=
+  Mime.ZipLayout.descriptor_first_entry e1 mid em rest tail sig mso hwf hclean hreal hmid hcsize hlen hmso hmark
+
+/- non-vacuity: the four-entry package of Lemmas/ZipLayout.lean ([Content_Types].xml, _rels/.rels,
+   docProps/app.xml, word/document.xml + central directory) meets the hypotheses -/
+example : zipContains (archive [ZipLayout.ex1, ZipLayout.ex2, ZipLayout.ex3, ZipLayout.ex4] ZipLayout.exTail)
+    C19Base.exWord true = some true := by decide +kernel
 
 end Mime.C19
